@@ -19,8 +19,11 @@ def main():
     for p in props:
         c = claims.get(p, {})
         if p in byprop and not c.get("not_applicable"):
-            ids = [o.id for o in byprop[p]]
-            q = [o.id for o in byprop[p] if o.tier == "Q"]
+            derived = [o.id for o in byprop[p] if o.id.startswith("C06.shared_state.")]
+            ids = [o.id for o in byprop[p] if o.id not in derived]
+            q = [o.id for o in byprop[p] if o.tier == "Q" and o.id not in derived]
+            if derived:
+                q.append("C06.shared_state.<id> for %d obligations of the other properties" % len(derived))
             checks.append({
                 "property_id": p,
                 "quick_cmd": "./check %s --tier quick" % p,
